@@ -365,6 +365,7 @@ func (l *lexer) run() {
 
 // next returns the next rune in the input.
 func (l *lexer) next() (r rune) {
+	verifStep()
 	if l.pos >= ast.Pos(len(l.input)) {
 		l.width = 0
 		return eof
